@@ -36,6 +36,11 @@ def configs(tier, seed):
     for model, n1, n2, mk in rf:
         cfgs.append(dict(kind="refit", model=model, n1=n1, n2=n2, max_k=mk, labels=[0, 1, 0, 1][:max(n1, n2)], logic="fresh",
                          weight=(n2 ** n2) * 300 * max(mk, 1), deadline_s=1500))
+    # ... and the earlier life includes a prediction (fit, predict, fit, predict): state and final prediction equal
+    # those of a never-used object; supervised and semi-supervised (whose fit overrides the parent's)
+    for model, n1, n2 in ([("sup", 2, 3), ("semi", 3, 3)] if tier == "quick" else [("sup", 2, 3), ("sup", 3, 3), ("semi", 3, 3), ("semi", 3, 4), ("semi", 4, 4)]):
+        cfgs.append(dict(kind="refit", model=model, n1=n1, n2=n2, max_k=0, mid_predict=True, labels=[0, 1, 0, 1][:max(n1, n2)],
+                         logic="fresh", weight=(n2 ** n2) * 300, deadline_s=1500))
     return cfgs
 
 
@@ -74,7 +79,7 @@ def describe(v, tier):
     v.bounds = dict(metrics="all 47, vectors of length 1..2 (quick) / 1..3 (thorough), symbolic elements in the metric's domain",
                     models="fit + predict of the four models on 3 training samples + 1 query with one feature, metrics manhattan (undecorated) and canberra (decorated); thorough adds chi_squared / squared_euclidean",
                     histories="three evaluations per metric (same values again after an unrelated call); two fits of fresh models on equal data; "
-                              "a model object fitted on 2 samples and then on 3 (quick) / up to 4 (thorough) vs a never-used object (table metric, max_k 2..3)")
+                              "a model object fitted on 2 samples and then on 3 (quick) / up to 4 (thorough) vs a never-used object (table metric, max_k 2..3); supervised / semi-supervised also fit, predict, fit, predict with the final prediction compared")
     v.assumptions = ["a write v <- v + c changes a float64 iff the QF_FP query  fl(x + c) != x  is satisfiable (z3, Float64, RNE)",
                      "other write patterns are candidates decided by replay (bytes of the caller's arrays before vs after on the real package)",
                      "the numpy model logs every element store into buffers owned by the caller, including stores through views (Node.features is a view of a row of X)"]
